@@ -22,3 +22,4 @@ import Reamber.Props.C15
 #print axioms Reamber.PermInv.projRows_rowPerm
 #print axioms Reamber.PermInv.convert_one_rowperm
 #print axioms Reamber.PermInv.hitsound_copy_perm
+#print axioms Reamber.PermInv.write_osu_perm
